@@ -41,6 +41,7 @@ type solveCfg struct {
 	jobs      int
 	confirm   bool // require a second solver to agree on unsat (thorough)
 	keepFiles bool
+	raw       bool // hand-written query: race the plain solvers only
 }
 
 func runSolver(ctx context.Context, sp solverSpec, file string, secs int) (string, string, float64) {
@@ -74,6 +75,9 @@ func runSolver(ctx context.Context, sp solverSpec, file string, secs int) (strin
 }
 
 func (x *Exec) queryText(o *Obligation, prelude string, model bool) string {
+	if o.Raw != "" {
+		return o.Raw
+	}
 	var b strings.Builder
 	b.WriteString("(set-option :produce-models true)\n(set-logic ALL)\n")
 	body := defsText(o.defs) + o.goal
@@ -136,7 +140,12 @@ func (x *Exec) solveAll(cfg solveCfg) {
 			defer wg.Done()
 			defer func() { <-sem }()
 			os.WriteFile(j.file, []byte(j.text), 0o644)
-			res, solver, secs, out := solveOne(j.file, cfg, j.obls[0].Cover)
+			jcfg := cfg
+			if j.obls[0].MaxSec > 0 {
+				jcfg.fullSecs = j.obls[0].MaxSec
+				jcfg.raw = true
+			}
+			res, solver, secs, out := solveOne(j.file, jcfg, j.obls[0].Cover)
 			for _, o := range j.obls {
 				o.Result, o.Solver, o.Secs, o.File = res, solver, secs, j.file
 				if res != "unsat" {
@@ -157,6 +166,28 @@ func solveOne(file string, cfg solveCfg, cover bool) (res, solver string, secs f
 	want := "unsat"
 	if cover {
 		want = "sat"
+	}
+	if cfg.raw {
+		ctx, cancel := context.WithCancel(context.Background())
+		defer cancel()
+		type ans struct{ r, text, name string }
+		ch := make(chan ans, 3)
+		racers := []solverSpec{solvers[0], solvers[1], solvers[len(solvers)-1]}
+		for _, sp := range racers {
+			go func(sp solverSpec) {
+				r, text, _ := runSolver(ctx, sp, file, cfg.fullSecs)
+				ch <- ans{r, text, sp.name}
+			}(sp)
+		}
+		last := ans{r: "timeout"}
+		for range racers {
+			a := <-ch
+			if a.r == "unsat" || a.r == "sat" {
+				return a.r, a.name, time.Since(t0).Seconds(), a.text
+			}
+			last = a
+		}
+		return last.r, last.name, time.Since(t0).Seconds(), last.text
 	}
 	r, text, _ := runSolver(context.Background(), solvers[0], file, cfg.fastSecs)
 	if cover && r != "unsat" {
